@@ -74,6 +74,26 @@ inline std::string reader_all(const std::string& in, size_t max_blocks = 100000)
     return r + ";b=" + std::to_string(std::min<size_t>(nb, 9)) + ";r=" + std::to_string(std::min<size_t>(nrec, 9));
 }
 
-inline std::string all(const std::string& in) { return decoder_ops(in) + "|" + reader_all(in); }
+// reader-level, ONE CdnsBlockRead object re-used for every block (as an application that avoids re-allocating would): only some records of each
+// block are consumed before the next read; after a read that fails part-way the object is queried until it reports the end
+inline std::string reader_reused_block(const std::string& in, size_t max_blocks = 64) {
+    std::istringstream is(in); std::string r = "ru:"; size_t nb = 0;
+    try {
+        std::unique_ptr<CdnsReader> rdp(new CdnsReader(is)); CdnsReader& rd = *rdp; CdnsBlockRead b;
+        auto drain = [&](int limit) { try { bool end = false; for (int i = 0; i < limit && !end; i++) { auto g = b.read_generic_qr(end); if (!end) use(g.string()); } } catch (std::exception&) { r += "q"; }
+                                      try { bool end = false; for (int i = 0; i < limit && !end; i++) { auto g = b.read_generic_mm(end); if (!end) use(g.string()); } } catch (std::exception&) { r += "m"; }
+                                      try { bool end = false; for (int i = 0; i < limit && !end; i++) { auto g = b.read_generic_aec(end); if (!end) use(g.string()); } } catch (std::exception&) { r += "a"; } };
+        while (nb < max_blocks) {
+            if (rd.m_indef_blocks && rd.m_decoder.peek_type() == CborType::BREAK) break;
+            if (!rd.m_indef_blocks && rd.m_blocks_read == rd.m_blocks_count) break;
+            try { b.read(rd.m_decoder, rd.m_file_preamble.m_block_parameters); rd.m_blocks_read++; nb++; }
+            catch (std::exception&) { r += "X"; drain(100000); break; }   // the failed read left the object in some state: it must still answer safely
+            drain(nb % 2 ? 3 : 1);
+        }
+    } catch (CdnsDecoderEnd&) { r += "end"; } catch (std::exception&) { r += "exc"; }
+    return r + std::to_string(std::min<size_t>(nb, 9));
+}
+
+inline std::string all(const std::string& in, bool reuse = false) { return decoder_ops(in) + "|" + reader_all(in) + (reuse ? "|" + reader_reused_block(in) : std::string()); }
 
 } // namespace consume
